@@ -8,6 +8,7 @@ def drv_args(*fact_dicts):
     args = {}
     for d in fact_dicts:
         args.update(d)
+    kvspec.EXP_NE0 = args.get("wireExpNe0") == "yes" or args.get("wireGet") == "ne0"
     return ["%s=%s" % kv for kv in sorted(args.items())]
 
 
